@@ -14,6 +14,7 @@ import (
 	"fmt"
 	"math/rand/v2"
 	"strings"
+	"bytes"
 	"sync"
 
 	"github.com/onflow/crypto"
@@ -51,6 +52,8 @@ type c19Env struct {
 	sigs   [][]crypto.Signature // [key][msg] BLS
 	ecsigs [][]crypto.Signature // [key][msg] ECDSA
 	bad    []crypto.Signature   // invalid encoding, wrong length
+	stressKmac hash.Hasher
+	stressBLS  hash.Hasher
 }
 
 func init() {
@@ -68,6 +71,8 @@ func init() {
 
 func c19Setup(in c19In) (*c19Env, error) {
 	env := &c19Env{in: in}
+	env.stressKmac, _ = hash.NewKMAC_128([]byte("0123456789abcdef0123456789abcdef"), []byte("c19"), 32)
+	env.stressBLS = crypto.NewExpandMsgXOFKMAC128("c19-stress")
 	r := rand.New(rand.NewPCG(uint64(len(in.Seed)), 77))
 	seed := unhx(in.Seed)
 	env.kmac = crypto.NewExpandMsgXOFKMAC128("C19-harness")
@@ -194,6 +199,48 @@ func (env *c19Env) apply(o c19Op) string {
 	}
 	nb := len(env.sks)
 	switch o.Op {
+	case "stress":
+		// many goroutines, DISTINCT short inputs, one shared hasher / key: every call must return what it
+		// returns alone (a shared scratch buffer inside the hasher would mix the inputs up)
+		const G, R = 8, 150
+		bad := 0
+		var mu sync.Mutex
+		var wg sync.WaitGroup
+		for g := 0; g < G; g++ {
+			wg.Add(1)
+			go func(g int) {
+				defer wg.Done()
+				for _, l := range []int{1, 8, 20, 32, 44} {
+					m := make([]byte, l)
+					for i := range m {
+						m[i] = byte(g*31 + i + l)
+					}
+					fresh, _ := hash.NewKMAC_128([]byte("0123456789abcdef0123456789abcdef"), []byte("c19"), 32)
+					want := fresh.ComputeHash(m)
+					wantSig, _ := env.sks[0].Sign(m, crypto.NewExpandMsgXOFKMAC128("c19-stress"))
+					for r := 0; r < R; r++ {
+						if !bytes.Equal(env.stressKmac.ComputeHash(m), want) {
+							mu.Lock()
+							bad++
+							mu.Unlock()
+						}
+						if r%30 == 0 {
+							sg, _ := env.sks[0].Sign(m, env.stressBLS)
+							if !bytes.Equal(sg, wantSig) {
+								mu.Lock()
+								bad++
+								mu.Unlock()
+							}
+						}
+					}
+				}
+			}(g)
+		}
+		wg.Wait()
+		if bad > 0 {
+			return fmt.Sprintf("stress-mismatch:%d", bad)
+		}
+		return "stress-ok"
 	case "kmac":
 		return hx(env.kmac.ComputeHash(env.msgs[o.M]))
 	case "blssign":
@@ -318,6 +365,9 @@ func c19Gen(tier string, r *rand.Rand) []Case {
 				s = r.IntN(4)
 			}
 			in.Ops = append(in.Ops, c19Op{Op: kind, K: r.IntN(in.NBLS), K2: r.IntN(in.NBLS), M: r.IntN(nm), S: s})
+		}
+		if k%3 == 0 {
+			in.Ops = append(in.Ops, c19Op{Op: "stress"})
 		}
 		cs = append(cs, mkcase("mix", in))
 	}
